@@ -164,7 +164,14 @@ func c06policy(r *gen.R) *model.Policy {
 		var body *model.Expr
 		part := model.Var(mon.Pick(r, []string{"principal", "action", "resource"}))
 		u, v2 := gen.RandUID(r), gen.RandUID(r)
-		switch r.Intn(16) {
+		switch r.Intn(18) {
+		case 16:
+			// a guard that may fail for some completions, with both branches the same constant
+			same := model.Lit(model.Bool(r.Bool()))
+			body = model.If(model.Bin(model.OLt, model.Access(ctx, k), model.Lit(model.Long(gen.RandLong(r)))), same, same)
+		case 17:
+			same := g.LitExpr(gen.RandVal(r, 0))
+			body = model.Bin(model.OEq, model.If(model.Access(ctx, k), same, same), same)
 		case 10:
 			// an operand that may be unknown before an operand that may be ignored, in one strict node
 			body = model.Bin(mon.Pick(r, []model.Op{model.OEq, model.ONe}), model.Access(ctx, k), part)
